@@ -37,12 +37,10 @@ def main():
     ok_t = C.run_translator(bs) if ok_h else False
     if spec.get("engine"):
         C.build_engine(bs)
-    lean_ok = False
-    if ok_t:
-        lean_ok = C.lake_build(bs, ["wvm"])
-        proof_ok = C.lake_build(bs, ["Walleye.Props." + prop])
-    else:
-        proof_ok = False
+    # a translator failure is a broken tie; the previously generated constants (if any) are still
+    # used to search for a concrete failing input
+    lean_ok = C.lake_build(bs, ["wvm"]) if ok_h else False
+    proof_ok = C.lake_build(bs, ["Walleye.Props." + prop]) if ok_t else False
     audit = props.audit(prop, bs) if proof_ok else {"theorems": [], "bad": ["proof module does not build"]}
     ctx = props.Ctx(prop, args.tier, seed, bs, lean_ok and ok_h, proof_ok, audit)
     rc = props.run_check(ctx, spec)
